@@ -60,6 +60,10 @@ pub open spec fn fresh_scope(c0: Context, c: Context) -> bool { c.scopes() == c0
 pub open spec fn same_scopes(c0: Context, c: Context) -> bool { c.scopes() == c0.scopes() }
 /// C07: `c` is inside one scope opened on top of the scopes of `c0` (which are all still there, untouched)
 pub open spec fn one_scope_deeper(c0: Context, c: Context) -> bool { c.scopes().len() == c0.scopes().len() + 1 && c.scopes().drop_last() == c0.scopes() }
+/// C09: number of parameters written in an (optional) parameter list
+pub open spec fn n_params(pl: Option<synast::ParamList>) -> nat { match pl { Some(l) => l.sp_params().len(), None => 0 } }
+/// C09: the last symbol-table event is the declaration of `name` with a type satisfying `ty_ok`
+pub open spec fn last_bind(c: Context, name: Seq<char>) -> bool { c.trace().len() > 0 && c.trace().last() is Bind && c.trace().last()->Bind_0 == name }
 pub open spec fn cond1(c: bool, k: SemanticErrorKind) -> Seq<SemanticErrorKind> { if c { seq![k] } else { Seq::empty() } }
 
 // ---- C06: operators map to the graph operator of the same meaning ------------------------------
